@@ -67,6 +67,7 @@ private:
 	std::map<std::string, FileInfo> files;   // what the harness knows about each SimDisk path
 	std::vector<std::string> prob_paths;      // problem files in write order
 	std::string last_cli_basis, last_cli_basis_for;
+	std::string last_fbasis_path; bool last_fbasis_valid = false;
 	std::string io_path(const Op *o, const char *fmt_ext);
 	void arm_file_faults(const std::string &path);
 	bool roundtrip_precondition(const LP &m);
@@ -111,7 +112,7 @@ private:
 	void op_edit(Client &c); void op_param(Client &c);
 	void op_solve(Client &c); void op_basis(Client &c); void op_verdict(Client &c); void op_tableau(Client &c); void op_pivotin(Client &c);
 	void op_write(Client &c); void op_read(Client &c); void op_damage(Client &c); void op_foreign(Client &c);
-	void op_wbasis(Client &c); void op_rbasis(Client &c);
+	void op_wbasis(Client &c); void op_rbasis(Client &c); void op_fbasis(Client &c);
 	void op_lu(Client &c); void op_esolver(Client &c); void op_query_invalid(Client &c);
 	bool edit_invalid(Obj &o, const Fault &f);
 	void invalid_epilogue(Obj &o, const std::string &what, int rv, const std::string &before, bool rejected_ok = true);
@@ -131,3 +132,4 @@ Num lib_to_num(mpq_t v);
 Q lib_to_q(mpq_t v);
 std::string status_name(int s);
 bool definitive(int s);
+StoredBasis make_basis_pattern(const LP &m, long pat);
